@@ -274,6 +274,12 @@ impl<'a> Walk<'a> {
                 self.dev.delivered += 1;
                 let oversize = *len as usize > buf;
                 let honest = *len as usize == data.len();
+                // E7: the device of this harness never suppresses notifications (without EVENT_IDX its
+                // flags word stays 0, with it avail_event names the next entry): the re-post must be
+                // announced
+                if !new_heads.is_empty() && self.notifies.get() == nt0 {
+                    self.case.fail(format!("token {} was re-posted without notifying the device, which had not suppressed notifications", tok));
+                }
                 // E2: exactly this token re-posted, immediately
                 if new_heads.len() != 1 || new_heads[0] != *tok {
                     self.case.fail(format!("after delivering token {} the device sees new chains {:?} (expected exactly that token again)", tok, new_heads));
@@ -526,6 +532,8 @@ fn start<'a>(id: String, dom: &'static str, st: &Rc<RefCell<TState>>, qidx: usiz
 
 fn owning_case<const SIZE: usize, const BUF: usize>(ctx: &Ctx, stream: &str, idx: usize, id: String) -> Case {
     let mut rng = ctx.case_rng(stream, idx);
+    // every other case runs on a platform that shares buffers in place
+    hal::inplace_next(idx % 2 == 1);
     hal::reset();
     let seed = rng.below(60000);
     let feats = features(&mut rng);
@@ -582,6 +590,8 @@ fn owning_case<const SIZE: usize, const BUF: usize>(ctx: &Ctx, stream: &str, idx
 
 fn input_case(ctx: &Ctx, stream: &str, idx: usize, id: String) -> Case {
     let mut rng = ctx.case_rng(stream, idx);
+    // every other case runs on a platform that shares buffers in place
+    hal::inplace_next(idx % 2 == 1);
     hal::reset();
     let seed = rng.below(60000);
     let feats = features(&mut rng);
@@ -617,9 +627,13 @@ fn input_case(ctx: &Ctx, stream: &str, idx: usize, id: String) -> Case {
 
 fn sound_case(ctx: &Ctx, stream: &str, idx: usize, id: String) -> Case {
     let mut rng = ctx.case_rng(stream, idx);
+    // every other case runs on a platform that shares buffers in place
+    hal::inplace_next(idx % 2 == 1);
     hal::reset();
     let seed = rng.below(60000);
-    let feats = features(&mut rng);
+    // the long floods use exactly one of the two ring features (a driver that mixes them up only
+    // shows after the index has passed 0x8000)
+    let feats = if stream == "wrap-sound" { F_VERSION_1 | if idx % 2 == 0 { F_INDIRECT } else { F_EVENT_IDX } } else { features(&mut rng) };
     let mut ts = TState::new(DeviceType::Sound, feats, 4, *rng.pick(&[32u32, 64, 1024]));
     ts.config = vec![0u8; 12];
     let (t, st) = ModelTransport::new(ts);
@@ -631,7 +645,7 @@ fn sound_case(ctx: &Ctx, stream: &str, idx: usize, id: String) -> Case {
         Ok(Ok(d)) => (Some(d), Ok(())),
     };
     let negotiated = st.borrow().driver_features;
-    let events = (32 * rng.range(2, ctx.tier.pick(10, 30) as u64)) as usize;
+    let events = if stream == "wrap-sound" { 70016 } else { (32 * rng.range(2, ctx.tier.pick(10, 30) as u64)) as usize };
     let mut w = match start(id, "sound", &st, 1, 32, 8, seed, negotiated, notifies, &mut rng, res) {
         Ok(w) => w,
         Err(c) => return c,
@@ -671,6 +685,7 @@ pub fn run_drivers(ctx: &Ctx) -> Vec<Case> {
     // floods longer than 2^16 completions: the free-running 16-bit indices of the event queue wrap
     cases.extend(crate::runner::par_cases(ctx, "C19", "wrap-owning", ctx.tier.pick(6, 24), |i, id| owning_dispatch(ctx, "wrap-owning", i, id)));
     cases.extend(crate::runner::par_cases(ctx, "C19", "wrap-input", ctx.tier.pick(2, 8), |i, id| input_case(ctx, "wrap-input", i, id)));
+    cases.extend(crate::runner::par_cases(ctx, "C19", "wrap-sound", ctx.tier.pick(2, 8), |i, id| sound_case(ctx, "wrap-sound", i, id)));
     cases
 }
 
